@@ -1,28 +1,15 @@
 /-
-  Certificate obligations, parts 32..39 of 64 of the `current` client system (kernel evaluation; 8 modules
-  so that lake checks them in parallel; small parts keep the kernel's memory small).
-  Assembled in `Lemmas/CliCert.lean`.
+  Certificate obligations, parts 8..9 of 16 of the `current` client system (kernel evaluation; 8 modules
+  so that lake checks them in parallel). Assembled in `Lemmas/CliCert.lean`.
 -/
 import KmipModel.Model.CliConn
 import KmipModel.Gen.CertCliConn
 namespace Kmip.CliCert
 open Kmip.CliLts Kmip.CliConn Kmip.Gen.CertCliConn
 
-theorem cuClosed32 : partClosed (sys current) codec certCurrent cuP32 = true := by decide +kernel
-theorem cuSafe32 : partSafe codec (badPartial current) cuP32 = true := by decide +kernel
-theorem cuClosed33 : partClosed (sys current) codec certCurrent cuP33 = true := by decide +kernel
-theorem cuSafe33 : partSafe codec (badPartial current) cuP33 = true := by decide +kernel
-theorem cuClosed34 : partClosed (sys current) codec certCurrent cuP34 = true := by decide +kernel
-theorem cuSafe34 : partSafe codec (badPartial current) cuP34 = true := by decide +kernel
-theorem cuClosed35 : partClosed (sys current) codec certCurrent cuP35 = true := by decide +kernel
-theorem cuSafe35 : partSafe codec (badPartial current) cuP35 = true := by decide +kernel
-theorem cuClosed36 : partClosed (sys current) codec certCurrent cuP36 = true := by decide +kernel
-theorem cuSafe36 : partSafe codec (badPartial current) cuP36 = true := by decide +kernel
-theorem cuClosed37 : partClosed (sys current) codec certCurrent cuP37 = true := by decide +kernel
-theorem cuSafe37 : partSafe codec (badPartial current) cuP37 = true := by decide +kernel
-theorem cuClosed38 : partClosed (sys current) codec certCurrent cuP38 = true := by decide +kernel
-theorem cuSafe38 : partSafe codec (badPartial current) cuP38 = true := by decide +kernel
-theorem cuClosed39 : partClosed (sys current) codec certCurrent cuP39 = true := by decide +kernel
-theorem cuSafe39 : partSafe codec (badPartial current) cuP39 = true := by decide +kernel
+theorem cuClosed8 : partClosed (sys current) codec certCurrent cuP8 = true := by decide +kernel
+theorem cuSafe8 : partSafe codec (bad current) cuP8 = true := by decide +kernel
+theorem cuClosed9 : partClosed (sys current) codec certCurrent cuP9 = true := by decide +kernel
+theorem cuSafe9 : partSafe codec (bad current) cuP9 = true := by decide +kernel
 
 end Kmip.CliCert
